@@ -20,7 +20,10 @@ import sfc_models.models
 
 TERMS = ['x', '+x', '-x', '(-x)', '-(x)', '-(-x)', 'x*y', '-x/y', 'A__x', ' - y ', 'y', '-A__x*y', 'y/x', 'y*x']
 PRE_F = [(), ('x',), ('x', 'y'), ('x*y', 'A__x'), ('y', 'x/y')]
-FLOWVAR = ['absent', 'empty', 'zero', 'zero-dot', 'defined']
+FLOWVAR = ['absent', 'empty', 'zero', 'zero-dot', 'defined', 'built-on-empty', 'built-on-zero', 'built-cancelled', 'built-on-defined']
+# how an existing definition of the flow variable came about through the public API: AddVariable(name, desc, initial) then AddTermToEquation(name, term)...
+BUILT = {'built-on-empty': ('', ['z', 'w*v'], 'z + w*v'), 'built-on-zero': ('0.0', ['z'], 'z'), 'built-cancelled': ('', ['z', '-z'], None),
+         'built-on-defined': ('z*2', ['w'], 'z*2 + w')}
 EXCL = [(), ('x',), ('y',), ('x', 'y'), ('other:x',)]
 
 
@@ -65,6 +68,8 @@ def configs(tier):
                         for fv in fvs:
                             if tier == 'quick' and which == 'INC' and fv in ('zero-dot', 'empty'):
                                 continue
+                            if fv.startswith('built') and (which == 'INC' or (tier == 'quick' and (len(pre) + len(ex)) % 2)):
+                                continue
                             out.append((which, pre, t, inc, ex, fv))
     return out
 
@@ -93,7 +98,11 @@ def run_config(cfg):
         tl = [tm for tm in s.EquationBlock[which].TermList if tm.Term != 'LAG_F']
         for tm, c in zip(tl, cs):
             tm.Constant = SymCoef(c)
-        if with_eqn and fv != 'absent':
+        if with_eqn and fv in BUILT:
+            s.AddVariable(name, 'flow variable', BUILT[fv][0])
+            for tm in BUILT[fv][1]:
+                s.AddTermToEquation(name, tm)
+        elif with_eqn and fv != 'absent':
             s.AddVariable(name, 'flow variable', OLD[fv])
         bF, bI = s.EquationBlock['F'].RHS(), s.EquationBlock['INC'].RHS()
         try:
@@ -119,7 +128,10 @@ def run_config(cfg):
         labels = ['F after == F before + flow', 'INC after == INC before %s' % ('+ flow' if counts else '(not income / excluded)')]
         if with_eqn:
             got = s.EquationBlock[name].RHS() if name in s.EquationBlock else None
-            want = EQN if fv in ('absent', 'empty', 'zero') else OLD[fv]
+            if fv in BUILT:
+                want = BUILT[fv][2] or EQN
+            else:
+                want = EQN if fv in ('absent', 'empty', 'zero') else OLD[fv]
             if fv == 'zero-dot':
                 ok = got is not None and (_same(got, EQN, env) or _same(got, OLD[fv], env))     # don't-care
             else:
@@ -277,7 +289,7 @@ def reg_chunk(cases):
 REPLAY_STEP = '''
 import sys
 from fractions import Fraction as F
-from vf.props.c06 import make_sector, unsigned
+from vf.props.c06 import make_sector, unsigned, BUILT
 which, pre, t, inc, ex, fv = %(cfg)r
 cs = %(cs)r
 m, s, o = make_sector()
@@ -290,7 +302,10 @@ tl = [tm for tm in s.EquationBlock[which].TermList if tm.Term != 'LAG_F']
 for tm, c in zip(tl, cs): tm.Constant = float(F(c))
 name = unsigned(t)
 OLD = {'empty': '', 'zero': '0.0', 'zero-dot': '0.', 'defined': 'z*2'}
-if fv not in ('n/a', 'absent'): s.AddVariable(name, 'flow variable', OLD[fv])
+if fv in BUILT:
+    s.AddVariable(name, 'flow variable', BUILT[fv][0])
+    for tm in BUILT[fv][1]: s.AddTermToEquation(name, tm)
+elif fv not in ('n/a', 'absent'): s.AddVariable(name, 'flow variable', OLD[fv])
 bF, bI = s.EquationBlock['F'].RHS(), s.EquationBlock['INC'].RHS()
 if fv != 'n/a': s.AddCashFlow(t, 'q*3 + 1', 'a flow', is_income=inc)
 else: s.AddCashFlow(t, is_income=inc)
@@ -307,9 +322,10 @@ for i in range(5):
     if bad: break
 if fv != 'n/a':
     got = s.EquationBlock[name].RHS()
-    want = 'q*3 + 1' if fv in ('absent', 'empty', 'zero') else OLD[fv]
+    if fv in BUILT: want = BUILT[fv][2] or 'q*3 + 1'
+    else: want = 'q*3 + 1' if fv in ('absent', 'empty', 'zero') else OLD[fv]
     print('flow variable', name, '=', repr(got), 'expected', repr(want))
-    env = {'q': 1.7, 'z': 2.9}
+    env = {'q': 1.7, 'z': 2.9, 'w': 0.7, 'v': 1.3}
     g = eval(got, {}, env) if got.strip() else 0.0
     if fv == 'zero-dot':
         bad = bad or (abs(g - eval('q*3 + 1', {}, env)) > 1e-9 and abs(g) > 1e-9)
